@@ -456,7 +456,25 @@ func Main(prop string) {
 	e.famSigRegression()
 	e.famNumbers()
 	e.famPools()
-	if prop == "C05" {
+	if prop == "C18" {
+		// C18, third clause: content that does not hash to the announced identifier is discarded without affecting what
+		// the node later accepts: altered copies of a block (every kind of alteration) offered before / between / after the
+		// genuine block on the main chain, on a side branch and as orphans; the errored-blocks cache at its capacities.
+		for i := 0; i < run.Pick(4, 30); i++ {
+			e.famLead5()
+		}
+	} else if prop == "C03" {
+		// C03, block level: a block that fails validation at any point (bad tx, wrong state root, wrong receipts root, ...)
+		// leaves the node's state, indexes and best block exactly as they were: every tree of up to 3 (4) blocks with an
+		// invalid block at each position, and pairs of branches with an invalid block at each position of the longer one.
+		for n := 1; n <= run.Pick(3, 4); n++ {
+			e.famSmall(n, -1)
+		}
+		for i := 0; i < run.Pick(60, 600); i++ {
+			s := 1 + rng.Intn(4)
+			e.famTwoBranches(rng.Intn(3), 1+rng.Intn(3), s, rng.Intn(s), invalidKinds[rng.Intn(len(invalidKinds))], 4, -1)
+		}
+	} else if prop == "C05" {
 		// small scope, exhaustively: every tree shape, every arrival order, one invalid block at every position
 		for n := 1; n <= run.Pick(4, 5); n++ {
 			c := e.famSmall(n, -1)
